@@ -388,8 +388,11 @@ namespace chaiscript {
                                         assert(children.size() == 1);
                                         chaiscript::eval::detail::Scope_Push_Pop spp(t_ss);
 
-                                        int i = start_int;
-                                        t_ss.add_object(id, var(&i));
+                                        // the counter is shared with the script: a lambda may capture the loop
+                                        // variable and be called after the loop has ended
+                                        const auto counter = std::make_shared<int>(start_int);
+                                        int &i = *counter;
+                                        t_ss.add_object(id, var(counter));
 
                                         try {
                                           for (; i < end_int; ++i) {
